@@ -679,6 +679,12 @@ fn fail(c: &str, d: String) -> Verdict {
 
 #[allow(clippy::too_many_arguments)]
 fn record(sink: &mut Sink, ctx: &mut Ctx, fe: FeIn, a: Option<AFilter>, msgs: Vec<Msg>, sweep: Option<Msg>, group: Option<u64>, extra_tags: &[&str]) {
+    record_multi(sink, ctx, fe, a, vec![], msgs, sweep, group, extra_tags)
+}
+
+/// `alist` (if not empty): the abstract filters of a file with several filters, in file order
+#[allow(clippy::too_many_arguments)]
+fn record_multi(sink: &mut Sink, ctx: &mut Ctx, fe: FeIn, a: Option<AFilter>, alist: Vec<AFilter>, msgs: Vec<Msg>, sweep: Option<Msg>, group: Option<u64>, extra_tags: &[&str]) {
     let real: Vec<DltMessage> = msgs.iter().enumerate().map(|(i, m)| real_msg(m, i as u32)).collect();
     let texts: Vec<Option<String>> = real.iter().map(eff_text).collect();
     let sweep_list = sweep.as_ref().map(sweep_msgs);
@@ -927,6 +933,26 @@ fn record(sink: &mut Sink, ctx: &mut Ctx, fe: FeIn, a: Option<AFilter>, msgs: Ve
             }
         }
     }
+    // a file with several filters: one loaded filter per abstract filter, in order, each deciding as its abstract filter
+    if !alist.is_empty() {
+        tags.push(format!("multi{}", alist.len()));
+        match &loaded {
+            Ok(Some(ls)) if ls.len() == alist.len() => {
+                for (k, (l, a)) in ls.iter().zip(alist.iter()).enumerate() {
+                    let want: Vec<bool> = msgs.iter().zip(texts.iter()).map(|(m, t)| aspec(&mut ctx.eng, a, m, t)).collect();
+                    if l.dec.msgs != want {
+                        let i = want.iter().zip(l.dec.msgs.iter()).position(|(x, y)| x != y).unwrap();
+                        set_fail(
+                            fail("matches_spec", format!("front-end {}: filter {} of the file, message {} {:?}: matches = {}, specification = {}", fe_name, k, i, msgs[i], l.dec.msgs[i], want[i])),
+                            &mut verdict,
+                        );
+                    }
+                }
+            }
+            Ok(Some(ls)) => set_fail(fail(&format!("frontend_{}_loads", fe_name), format!("{} filters loaded from a file with {}", ls.len(), alist.len())), &mut verdict),
+            _ => set_fail(fail(&format!("frontend_{}_loads", fe_name), "file not loaded".into()), &mut verdict),
+        }
+    }
     // the selection made by `adlt convert -f <file>` with this one positive, enabled filter
     if let (Some(a), true) = (&a, ctx.cli_budget > 0) {
         let file: Option<Vec<u8>> = match &fe {
@@ -1031,20 +1057,20 @@ fn record(sink: &mut Sink, ctx: &mut Ctx, fe: FeIn, a: Option<AFilter>, msgs: Ve
         clist(&msgs.iter().zip(texts.iter()).map(|(m, t)| coq_msg(m, t)).collect::<Vec<_>>()),
         copt(sweep.as_ref().map(|s| coq_msg(s, sweep_text.as_ref().unwrap())))
     );
-    let input_json = json!({"fe": fe, "afilter": a, "msgs": msgs, "sweep": sweep, "group": group});
+    let input_json = json!({"fe": fe, "afilter": a, "afilters": alist, "msgs": msgs, "sweep": sweep, "group": group});
     let key = format!("{}|{}", serde_json::to_string(&fe).unwrap(), serde_json::to_string(&msgs).unwrap());
     let id = sink.next_id();
     sink.push(Case { id, input_coq, input_json, obs, verdict, classes, tags, nontrivial, key });
 }
 
 // ------------------------------------------------------------------------------------------ generators
-const LIT_IDS: [&str; 16] = ["ECU1", "ECU2", "EC", "E", "ABCDE", "APID", "AP", "APIDX", "CTID", "CT", "TC", "A B", "ecu1", "", "XY", "ECU"];
+const LIT_IDS: [&str; 19] = ["ECU1", "ECU2", "EC", "E", "ABCDE", "APID", "AP", "APIDX", "CTID", "CT", "TC", "A B", "ecu1", "", "XY", "ECU", "A.B", "C+", "A.B"];
 const RE_IDS: [&str; 14] = ["ECU1|ECU2", "^EC", "E.U", "AP|CT", "[AC]", "\\x00$", "(?i)ecu1", "^.{2}\\x00", "^ECU\\d$", "A.*D", "CT$", "^(AP|TC)", "X+", "D$"];
 /// regular expressions without any of the auto-detection characters (only reachable with an explicit IsRegex)
 const RE_PLAIN_IDS: [&str; 4] = ["APID", "EC", "C", "T"];
-const MSG_IDS: [&[u8; 4]; 18] = [
+const MSG_IDS: [&[u8; 4]; 22] = [
     b"ECU1", b"ECU2", b"EC\0\0", b"E\0\0\0", b"ABCD", b"APID", b"AP\0\0", b"CTID", b"CT\0\0", b"TC\0\0", b"ecu1", b"\0\0\0\0", b"A B\0", b"XXXX", b"XY\0\0",
-    b"ECU\0", b"\xff\x01- ", b"APIX",
+    b"ECU\0", b"\xff\x01- ", b"APIX", b"A.B\0", b"AxB\0", b"C+\0\0", b"CC\0\0",
 ];
 const LIT_PAYLOADS: [&str; 12] = ["foo", "Foo", "FOO bar", "o", "", "stra\u{df}e", "a.b", "k", "(?i)", "bar", "12", "F"];
 const RE_PAYLOADS: [&str; 12] = ["^foo", "fo+", "foo.*bar", "(?<n>\\d+)", "(?!x)foo", "\\d{2,}", "Foo", "^$", "(?i)x", "bar$", "a.b", "[fF]oo (?=b)"];
@@ -1054,8 +1080,8 @@ const TEXTS: [&str; 16] = [
 
 fn gen_aid(rng: &mut Rng) -> AId {
     match rng.below(10) {
-        0..=5 => AId { s: rng.pick(&LIT_IDS).to_string(), regex: false },
-        6..=8 => AId { s: rng.pick(&RE_IDS).to_string(), regex: true },
+        0..=4 => AId { s: rng.pick(&LIT_IDS).to_string(), regex: false },
+        5..=7 => AId { s: rng.pick(&RE_IDS).to_string(), regex: true },
         _ => AId { s: rng.pick(&RE_PLAIN_IDS).to_string(), regex: true },
     }
 }
@@ -1393,7 +1419,8 @@ fn replay(sink: &mut Sink, ctx: &mut Ctx, c: &Value) {
     let a: Option<AFilter> = serde_json::from_value(c["afilter"].clone()).expect("afilter");
     let msgs: Vec<Msg> = serde_json::from_value(c["msgs"].clone()).expect("msgs");
     let sweep: Option<Msg> = serde_json::from_value(c["sweep"].clone()).expect("sweep");
-    record(sink, ctx, fe, a, msgs, sweep, None, &["replay"]);
+    let alist: Vec<AFilter> = if c["afilters"].is_array() { serde_json::from_value(c["afilters"].clone()).expect("afilters") } else { vec![] };
+    record_multi(sink, ctx, fe, a, alist, msgs, sweep, None, &["replay"]);
 }
 
 fn corpus(sink: &mut Sink, ctx: &mut Ctx) {
@@ -1546,10 +1573,38 @@ fn main() {
     // random abstract filters through every front-end that can express them
     let n = a.count.unwrap_or(if quick { 260 } else if a.tier == "search" { 500 } else { 6000 });
     for i in 0..n {
-        let af = match i % 5 {
+        let af = match i % 6 {
             0 => gen_ids_only(&mut rng, true),
             1 => gen_ids_only(&mut rng, false),
             2 => gen_afilter(&mut rng, 1, 2),
+            3 => {
+                // what a dlt-viewer file can say
+                let mut f = gen_afilter(&mut rng, 2, 5);
+                f.negate = false;
+                f.lcs = None;
+                if let Some(e) = &mut f.ecu {
+                    e.regex = false;
+                    if e.s.is_empty() || !e.s.is_ascii() {
+                        e.s = "ECU1".into();
+                    }
+                }
+                for c in [&mut f.apid, &mut f.ctid].into_iter().flatten() {
+                    if c.s.is_empty() {
+                        c.s = "AP".into();
+                    }
+                    if rng.chance(1, 3) {
+                        // the regex flag decides, not the characters
+                        c.regex = !c.regex;
+                        if c.regex && ctx.eng.bytes(&c.s).is_none() {
+                            c.regex = false;
+                        }
+                    }
+                }
+                if f.ty.is_some() {
+                    f.ty = Some(AType::Mstp(3));
+                }
+                f
+            }
             _ => gen_afilter(&mut rng, 1, 4),
         };
         let (msgs, base) = universe(&mut rng, &mut ctx.eng, &af, 4);
@@ -1569,6 +1624,42 @@ fn main() {
                 let cli_msgs: Vec<Msg> = msgs.iter().filter(|m| m.raw.is_none()).cloned().collect();
                 record(&mut sink, &mut ctx, FeIn::Eac(s), Some(af.clone()), cli_msgs, None, None, &[]);
             }
+        }
+    }
+
+    // files with several filters (dlt-convert list, DLF)
+    let n_multi = a.count.unwrap_or(if quick { 40 } else if a.tier == "search" { 80 } else { 600 });
+    for i in 0..n_multi {
+        let k = rng.range(2, 4) as usize;
+        if i % 2 == 0 {
+            let al: Vec<AFilter> = (0..k).map(|_| gen_ids_only(&mut rng, true)).collect();
+            let mut bytes = vec![];
+            for af in &al {
+                bytes.extend(a_to_conv(&mut rng, af).expect("conv"));
+            }
+            if rng.chance(1, 3) {
+                bytes.extend_from_slice(&b"APID CTI"[..rng.below(9) as usize]); // an incomplete last record is ignored
+            }
+            let (mut msgs, _) = universe(&mut rng, &mut ctx.eng, &al[0], 2);
+            for af in &al[1..] {
+                msgs.push(satisfying_msg(&mut rng, &mut ctx.eng, af));
+            }
+            record_multi(&mut sink, &mut ctx, FeIn::Conv(bytes), None, al, msgs, None, None, &[]);
+        } else {
+            let mut al = vec![];
+            let mut fs = vec![];
+            while al.len() < k {
+                let af = gen_afilter(&mut rng, 1, 3);
+                if let Some(d) = a_to_dlf(&mut rng, &af) {
+                    al.push(af);
+                    fs.push(d);
+                }
+            }
+            let (mut msgs, _) = universe(&mut rng, &mut ctx.eng, &al[0], 2);
+            for af in &al[1..] {
+                msgs.push(satisfying_msg(&mut rng, &mut ctx.eng, af));
+            }
+            record_multi(&mut sink, &mut ctx, FeIn::Dlf(fs, rng.chance(1, 2)), None, al, msgs, None, None, &[]);
         }
     }
 
